@@ -95,6 +95,7 @@ static void runSweep32(const Opt &o, Ev &ev) {
     armLazy(lazyOne, nullptr);
     uint64_t nt = 0, n = 0;
     auto one = [&](uint32_t v) {
+        if ((v & 0xfff) == 0) vfTick();                     // progress for the hang watchdog
         for (int bi = 0; bi < 4; bi++) for (int sg = 0; sg < 2; sg++) {
             int variant = (int) ((v ^ bi) & 1);
             n++;
@@ -149,6 +150,18 @@ static void runBufLen(const Opt &o, Ev &ev) {
             ev.eval();
             if (nt) ev.ntCount();
             if (len == 3 && ev.wantSample()) { char T[80]; refText(c.raw, bits, base, sg, T); ev.sample(descr(c) + " -> full text '" + T + "'"); }
+            if (!m.empty()) { failEnum(o, ev, "one", replayText(c), m); if (ev.failures.size() >= 5) return; }
+        }
+    }
+    // buffers far longer than any text: lengths around the 8- and 16-bit marks (a length narrowed to a small integer type inside
+    // the formatter would show here and nowhere below)
+    static const size_t farLens[] = {71, 127, 128, 255, 256, 257, 260, 300, 511, 512, 1024, 4096, 65535, 65536, 65537, 70000};
+    for (uint64_t raw : {0ULL, 42ULL, 0x80000000ULL, 0xffffffffULL, 0x8000000000000000ULL, ~0ULL, 1234567ULL}) for (int bits : {32, 64}) for (int base : {10, 2, 16}) for (int sg = 0; sg < 2; sg++) {
+        if ((idx++ % o.workers) != (uint64_t) o.worker) continue;
+        for (size_t len : farLens) {
+            One c{bits == 32 ? (raw & 0xffffffffULL) : raw, bits, base, (bool) sg, (int) (len & 1), len};
+            std::string m = checkExact(c);
+            ev.eval(); ev.ntCount();
             if (!m.empty()) { failEnum(o, ev, "one", replayText(c), m); if (ev.failures.size() >= 5) return; }
         }
     }
@@ -221,7 +234,7 @@ static One decode(Src &s) {
     c.base = bases[s.weighted({4, 4, 4, 4, 1, 1, 1, 1, 1, 1, 1})];
     c.sign = s.coin();
     c.variant = (int) s.range(0, 1);
-    c.len = s.prob(1, 3) ? 70 : (size_t) s.range(0, 70);
+    c.len = s.prob(1, 3) ? 70 : s.prob(1, 12) ? (size_t) s.pick(std::vector<int>{255, 256, 257, 260, 512, 1000, 4096, 65536}) : (size_t) s.range(0, 70);
     return c;
 }
 static std::string bodyRand(Src &s, Ev &ev) {
